@@ -214,7 +214,7 @@ def run(R, tier):
                           'lookup value different from the first key, INDEX not at (1,1), ADDRESS column > 26; '
                           'distinct by recipe hash')
     C.proof_obligations(R, 'theories/Props/C14.v', 'Props.C14', TARGETS)
-    if R.broken and any('build failed' in b for b in R.broken):
+    if R.broken and any('Coq build failed' in b for b in R.broken):
         # the model itself may not compile: search directly on the implementation is impossible without the spec,
         # so report the broken obligation
         return
